@@ -94,6 +94,10 @@ type Stream struct {
 	// headerListSize is the running RFC 7540 6.5.2 size of the header block
 	// being decoded, summed across the HEADERS frame and its CONTINUATIONs.
 	headerListSize int
+	// blockFields counts the fields decoded so far in the header block that
+	// is arriving, over all of its frames: a dynamic table size update is
+	// only allowed before the first one.
+	blockFields int
 
 	// original type
 	origType        FrameType
@@ -142,6 +146,7 @@ func NewStream(id uint32, win int32) *Stream {
 	strm.abandoned = false
 	strm.origType = 0
 	strm.headerListSize = 0
+	strm.blockFields = 0
 
 	return strm
 }
